@@ -21,6 +21,21 @@ CLAIMED = {
   text="Structural necessary conditions, decided over all paths of the current source: every request-caused error origin that can reach ServeError carries a 4xx label; explicit panics reachable from the handlers equal a reviewed table whose mechanical justifications are re-checked; optional pointers of request-decoded structs and constant indexes are guarded; stream-driven recursion carries a depth bound; parse errors are tested before use and before any mutating backend call. Does not decide panics inside encoding/xml, go-ical, go-vcard, net/http.",
   note="Trusted: go/ssa, CHA call graph plus explicit reflection edges for encoding/xml's (Un)Marshal* calls; the frozen list of parse/decode functions and of mutating backend methods in checker/p_c13.go.",
   ref="DESIGN.md §3 C13"),
+ "C14": dict(
+  technique="static analysis: who-may-call/who-may-access rules, dominator-based release and guard rules, field-flow, call-graph reachability over go/ssa",
+  text="Structural necessary conditions over all paths of the current source: a single HTTP gate that every public client method reaches; the response status flows unaltered into the error; per-resource status fields are only touched inside package internal and a property is decoded only after both status tests; every response obtained from Do is closed or handed on; stream-driven recursion is depth-bounded; reachable explicit panics equal a reviewed table; parse errors are tested before use. Does not decide behaviour inside encoding/xml, net/http or the iCalendar/vCard parsers.",
+  note="Trusted: go/ssa, CHA call graph plus reflection edges; the user's HTTPClient returns a non-nil response or a non-nil error.",
+  ref="DESIGN.md §3 C14"),
+ "C18": dict(
+  technique="static analysis: interprocedural write-effects analysis (roots of every store) and CFG path counting over go/ssa",
+  text="Decides that the library has no mutable state shared between calls (no store rooted in a package variable or a Handler/Client receiver outside initialisers, directly or through callees; Marshal methods do not write through their receiver; adapters are per-request locals) — hence no data race on library state — and the upload protocol of Client.Create: the only go statement, a buffered done channel, exactly one send on every goroutine path, no loop, Close returns the received value. Does not decide scheduler interleavings inside net/http or the OS, nor that Write unblocks when the peer stops reading (transport contract).",
+  note="Trusted: go/ssa; external functions write through their arguments only if listed in checker/e5_effects.go.",
+  ref="DESIGN.md §3 C18"),
+ "C19": dict(
+  technique="static analysis: decision-table extraction by abstract interpretation of the function's SSA over a finite predicate domain (no execution, no solver)",
+  text="Extracts the complete decision table of ValidateCalendarObject from the SSA of the current source — atoms: METHOD present, every consistent equal/unequal assignment between component names, VTIMEZONE, UIDs and the empty string, UID read failure — for calendars of up to 3 components (4 in the thorough tier) and compares every row with the statement, including the returned type and UID. Exhaustive over that abstract domain; the interpreter verifies that names and UIDs are touched only through ==/!= (data independence).",
+  note="Trusted: go/ssa; my models of ical.Props.Get and Props.Text (presence atom; opaque string + failure atom). Bounded by the number of components.",
+  ref="DESIGN.md §3 C19"),
 }
 
 def main():
